@@ -10,14 +10,14 @@ from .common import need_func, need_class, methods, make_eq
 from . import solver_model as SM
 
 LEVEL = 'other'
-TECHNIQUE = 'abstract interpretation of the eight ODE classes into coefficient matrices over symbolic (r, rho, g, mu, K, omega, l, 4piG); entry-wise polynomial identity with the Takeuchi-Saito/Kamata/Saito reference systems; sibling limits by rational-function limits; dispatch tables by partial evaluation; Love-number extraction by interpretation; conservation of the bilinear concomitant (symplectic structure) of every class; the same obligations on the interpreted sibling solver (derivative kernels, dispatch, propagator matrices); derivation of the Kelvin closed form from exact closed-form solutions of the implemented equations by a symbolic Cramer solve of the surface system'
+TECHNIQUE = 'abstract interpretation of the eight ODE classes into coefficient matrices over symbolic (r, rho, g, mu, K, omega, l, 4piG); entry-wise polynomial identity with the Takeuchi-Saito/Kamata/Saito reference systems; sibling limits by rational-function limits; dispatch tables by partial evaluation; Love-number extraction by interpretation; conservation of the bilinear concomitant (symplectic structure) of every class; the same obligations on the interpreted sibling solver (derivative kernels, dispatch, propagator matrices); derivation of the Kelvin closed form from exact closed-form solutions of the implemented equations by a symbolic Cramer solve of the surface system; whole-function symbolic execution of cf_radial_solver (integration, starting vectors, zgesv and heap abstracted by contract) for the Love numbers and the span of the assembled solution'
 LEVEL_TEXT = ('Decided exactly (R01.10): for l = 2..4 (thorough: up to 10) and complex rigidity, the exact regular solutions of the system the solver integrates for a homogeneous incompressible static sphere, combined by the solver\'s surface condition and read by its Love-number extraction, give k, h, l of the Kelvin closed form. What is not decided is that the numerical integration converges to those exact solutions. Also decided, for all classes, is the formula-level chain the general case rests on: the equations integrated are the '
               'published ones for every (layer kind, static, incompressible) class, the classes agree with each other in their limits, every dispatcher selects the class / solution count / layout of the same assumption set, '
               'and the Love numbers are read from the right slots of the surface row (with C04: the starting vectors solve these equations; with C02: the surface system is the requested one).')
 LEVEL_NOTE = ('Trusted: Cython-subset front-end, interpreter, our transcription of TS72 eq. 82 / KMN15 eqs. 4-14 / S74 eq. 18 (cross-validated by the sibling limits and by C04, whose independently transcribed '
               'starting solutions must be flow-invariant under these matrices). Not decided: convergence of CyRK to tolerance, hence the numerical closed-form equality.')
 EXPLANATION = ('R01.1 coefficient matrices == reference (linearity shown first); R01.2 sibling limits (static = dynamic at omega=0; incompressible = compressible as K -> inf); '
-               'R01.3 dispatch agreement (class, number of solutions, number of ys); R01.5 Love extraction (k, h, l) = (y5 - 1, g y1, g y3) of the surface row; R01.7/R01.8 the interpreted sibling solver and its propagator matrices against the same references; R01.9 every class conserves the bilinear concomitant of two solutions; R01.10 Kelvin closed form from exact solutions.')
+               'R01.3 dispatch agreement (class, number of solutions, number of ys); R01.5 Love extraction (k, h, l) = (y5 - 1, g y1, g y3) of the surface row; R01.7/R01.8 the interpreted sibling solver and its propagator matrices against the same references; R01.9 every class conserves the bilinear concomitant of two solutions; R01.10 Kelvin closed form from exact solutions; R01.11 on the executed driver the stored Love numbers are find_love_cf of the assembled surface row of their own solution type; R01.12 the assembled solution of every layer lies in the span of the integrated solutions of that layer.')
 
 
 def run(chk):
